@@ -67,7 +67,7 @@ CLAIMED = {
  "C02": dict(
    text="Consumer.tla models the single-partition consumer at the level of application calls, client replies (fetch windows drawn from a log with gaps: the next 0-3 entries, optionally preceded by an already consumed entry as a compressed batch returns it, 'too small', or ending in an entry that fails to decode), processor completions, timers; TLC checks exhaustively (5 configurations, bounded depth) that offsets reach the processor strictly increasing, without omission relative to the log from the resolved position, never overlapping; an edge cover of the state graph, TLC -simulate behaviours and seeded random schedules are executed on the real Consumer over a scripted client and TLC re-validates every recorded step (processor invocations, fetch offsets) and the order/no-gap clauses on the observed history.",
    ref="DESIGN.md 6.6, 7 (C02)",
-   note="Trusted: TLC, the simulated cluster's stored log as ground truth. Two bindings: (a) the consumer over a scripted client, driven by TLC-generated and random schedules; (b) full stack: the real Consumer over the real KafkaClient, broker clients, protocols and codec on the simulated cluster whose log holds gaps, gzip wrappers in both message formats at non-zero offsets and a message larger than the first fetch buffer, fetch v0 and (with version discovery) v2, under random answers/errors/drops/leader and coordinator moves; consumer-level events are derived from the completion of the client's request methods and validated against the same specification, and every delivered message's key/value/offset is compared with the stored one. A reply that fails to decode while parked behind processing is not scheduled."),
+   note="Trusted: TLC, the simulated cluster's stored log as ground truth. Two bindings: (a) the consumer over a scripted client, driven by TLC-generated and random schedules; (b) full stack: the real Consumer over the real KafkaClient, broker clients, protocols and codec on the simulated cluster whose log holds gaps, gzip wrappers in both message formats at non-zero offsets and a message larger than the first fetch buffer, fetch v0 and (with version discovery) v2, under random answers/errors/drops/leader and coordinator moves; consumer-level events are derived from the completion of the client's request methods and validated against the same specification, and every delivered message's key/value/offset is compared with the stored one. A reply that fails to decode while parked behind processing is not scheduled. Progress (every message of the log is eventually handed over once faults cease) is a temporal property checked on the design only: Consumer_Live.tla, three small configurations, complete state spaces under weak fairness of every fault-free event kind."),
  "C03": dict(
    text="Same specification and executions as C02, judged on C03's clauses: every commit request carries the last processed offset at the moment it is issued, every delivered message up to it was processed successfully, one commit request outstanding at a time, the recorded last-committed offset changes only to a value the coordinator acknowledged (commit accepted) or reported (offset fetch), start from the committed position resumes at committed+1; processor failures, manual/count/time-triggered commits, their retries and stop/shutdown at every point.",
    ref="DESIGN.md 6.6, 7 (C03)",
@@ -79,7 +79,7 @@ CLAIMED = {
  "C14": dict(
    text="Same specification and executions as C02, judged on C14's clauses: retry delays come from an independently computed table (init*1.20205^k capped at the maximum, 2 microseconds tolerance), restart after a success, attempt limit (2, 3, unlimited), the three reset policies with out-of-range arriving at any point, buffer growth along an independently computed size sequence (x16 to 1 MiB, doubling above: 1.5->3->6->8 MiB) re-fetching the same offset, failing only at the maximum.",
    ref="DESIGN.md 6.6, 7 (C14)",
-   note="Delays and sizes are compared exactly against tables computed by the harness from the documented rule, not from the implementation."),
+   note="Delays and sizes are compared exactly against tables computed by the harness from the documented rule, not from the implementation. 'Otherwise retrying continues indefinitely' is additionally a temporal property on the design (Consumer_Live.tla: once faults cease the consumer catches up with the log)."),
  "C16": dict(
    text="Group.tla models one group member (afkak's Coordinator / ConsumerGroup): coordinator lookup, topic metadata load, graceful shutdown of the previous generation's consumers, join, the leader's partition lookup, sync, start of the assigned consumers with generation and member id, heartbeat looper, delayed rejoins, the error table of rejoin_after_error, consumer errors, stop (consumers first, then leave). TLC checks exhaustively within a depth bound that a join request goes out only when no consumer of the previous generation is left, consumers are started only from a sync answer with the current generation/member id and from the committed position, eviction (illegal generation, unknown member, timeout) stops the consumers in the same event, one join/sync exchange at a time, heartbeats only while stable, nothing but the leave request after stop. An edge cover of the state graph, TLC -simulate behaviours and seeded random schedules are executed on the real ConsumerGroup over a scripted client and scripted partition consumers, and TLC re-validates every recorded step.",
    ref="DESIGN.md 0.9, 6.7, 7 (C16)",
